@@ -392,8 +392,10 @@ func (e *vEngine) apply(o c20Op) (string, string) {
 		if err != nil {
 			return "parse-known-fails", err.Error()
 		}
-		if sb != m.sb {
-			return "parse-known-returns-other-object", fmt.Sprintf("ParseBlock of processing b%d returned a different block object (verified=%v)", m.num, sb.verified)
+		if sb.ID() != m.sb.ID() || sb.verified != m.sb.verified {
+			// (the identity of the wrapper object is an implementation matter; what the engine relies on is
+			// that the block it gets back is the processing block with its verification status)
+			return "parse-known-loses-status", fmt.Sprintf("ParseBlock of processing b%d returned a block with id %s verified=%v (the processing block has verified=%v)", m.num, sb.ID(), sb.verified, m.sb.verified)
 		}
 	case "pref":
 		_ = e.vm.SetPreference(ctx, e.blocks[o.a].sb.ID())
